@@ -470,7 +470,8 @@ func RunParent(o RunOpts) (*Merged, error) {
 		defer os.RemoveAll(workDir)
 	}
 
-	if o.OnlyCase >= 0 {
+	onlyRaced := o.OnlyCase >= 0 && p.Race && p.UseRace != nil && p.UseRace(o.Tier, o.OnlyCase) && o.RaceBinary != ""
+	if o.OnlyCase >= 0 && !onlyRaced {
 		res := runOne(p, o.Tier, o.Seed, o.OnlyCase, workDir, true)
 		m.absorb(res)
 		return m, nil
@@ -490,6 +491,9 @@ func RunParent(o RunOpts) (*Merged, error) {
 	// partition the case list
 	var normal, raced []int
 	for idx := 0; idx < total; idx++ {
+		if onlyRaced && idx != o.OnlyCase {
+			continue // a single case that runs under the race detector: child process with the -race binary
+		}
 		if p.Race && p.UseRace != nil && p.UseRace(o.Tier, idx) && o.RaceBinary != "" {
 			raced = append(raced, idx)
 		} else {
